@@ -1667,6 +1667,15 @@ impl Zeroconf {
 
     /// Remove `addr` in my services that enabled `addr_auto`.
     fn del_addr_in_my_services(&mut self, addr: &IpAddr) {
+        // The address may still be in use on another interface (e.g. it moved there).
+        if self
+            .my_intfs
+            .values()
+            .any(|my_intf| my_intf.addrs.iter().any(|a| a.ip() == *addr))
+        {
+            return;
+        }
+
         for (_, service_info) in self.my_services.iter_mut() {
             if service_info.is_addr_auto() {
                 service_info.remove_ipaddr(addr);
@@ -1823,10 +1832,6 @@ impl Zeroconf {
             );
         }
 
-        for ip in deleted_ips {
-            self.del_ip(ip);
-        }
-
         for (if_index, last_ipv4, last_ipv6) in deleted_intfs {
             let Some(my_intf) = self.my_intfs.remove(&if_index) else {
                 continue;
@@ -1861,6 +1866,11 @@ impl Zeroconf {
             let result = self.cache.remove_records_on_intf(intf_id);
             self.notify_service_removal(result.removed_instances);
             self.resolve_updated_instances(&result.modified_instances);
+        }
+
+        // After the deleted interfaces are gone from `my_intfs`.
+        for ip in deleted_ips {
+            self.del_ip(ip);
         }
 
         // Add newly found interfaces only if in our selections.
